@@ -383,3 +383,56 @@ func genConstObj(thorough bool) Gen {
 		}
 	}
 }
+
+// F-localscope — the scope of a local begins AFTER its declaration statement (so a function
+// expression in the initialiser sees the enclosing/global variable of that name), except for
+// `local function`, whose name is in scope inside the body.
+func genLocalScope() Gen {
+	type form struct {
+		name string
+		mk   func() []Stat // declares local `f` (and possibly others) in a scope where global/outer `f` exists
+	}
+	self := func() *FuncExpr { return Func(names("n"), false, Return(Name("f"), Name("n"))) }
+	forms := []form{
+		{"local f = function", func() []Stat { return []Stat{Local1("f", self())} }},
+		{"local f = (function)", func() []Stat { return []Stat{Local1("f", Paren(self()))} }},
+		{"local function f", func() []Stat { return []Stat{LocalFunc("f", self())} }},
+		{"local f, g = function, 2", func() []Stat { return []Stat{Local(names("f", "g"), self(), Num(2))} }},
+		{"local g, f = 1, function", func() []Stat { return []Stat{Local(names("g", "f"), Num(1), self())} }},
+		{"local f; f = function", func() []Stat { return []Stat{Local(names("f")), Assign1(Name("f"), self())} }},
+		{"local f = function or nil", func() []Stat { return []Stat{Local1("f", Bin("or", self(), Nil()))} }},
+		{"local f = {function}[1]", func() []Stat { return []Stat{Local1("f", Index(TableE(Pos1(self())), Num(1)))} }},
+		{"local f = f", func() []Stat { return []Stat{Local1("f", Name("f"))} }},
+		{"local f = wrap(function)", func() []Stat { return []Stat{Local1("f", CallN("hid", self()))} }},
+	}
+	outers := []struct {
+		name string
+		mk   func(inner []Stat) []Stat
+	}{
+		{"global", func(in []Stat) []Stat { return append([]Stat{Assign1(Name("f"), Str("global-f"))}, in...) }},
+		{"outer-local", func(in []Stat) []Stat {
+			return []Stat{Local1("f", Str("outer-f")), Do(in...)}
+		}},
+		{"upvalue", func(in []Stat) []Stat {
+			return []Stat{Local1("f", Str("up-f")), CallS(Paren(Func(nil, false, in...)))}
+		}},
+		{"loop", func(in []Stat) []Stat {
+			return []Stat{Assign1(Name("f"), Str("global-f")), NumFor("i", Num(1), Num(2), nil, in...)}
+		}},
+	}
+	return func(yield func(*Prog)) {
+		for _, o := range outers {
+			for _, fm := range forms {
+				o, fm := o, fm
+				yield(&Prog{Family: "F-localscope", Shape: o.name + "/" + fm.name, Mk: func() *Block {
+					in := fm.mk()
+					// what does the name denote inside the function value, and outside?
+					in = append(in, IfElse(Bin("==", CallN("type", Name("f")), Str("function")),
+						[]Stat{Local(names("inner", "n"), CallN("f", Num(7))), Emit(Str("inside"), CallN("type", Name("inner")), Bin("==", Name("inner"), Name("f")), Name("inner"), Name("n"))},
+						[]Stat{Emit(Str("not-a-function"), Name("f"))}))
+					return Blk(o.mk(in)...)
+				}})
+			}
+		}
+	}
+}
